@@ -13,7 +13,7 @@ import (
 // Everything is observable through print(v) so that the same trees serve the behaviour check.
 
 var BigKinds = []string{"long-list", "left-chain", "right-chain", "deep-unary", "deep-call", "member-chain", "deep-index", "wide-array", "wide-call", "wide-object",
-	"many-params", "long-identifier", "long-string", "long-template", "long-number", "nested-blocks", "nested-ifs", "nested-functions", "nested-arrays", "deep-parens", "many-functions", "long-comment-free-line"}
+	"many-params", "long-identifier", "long-string", "long-template", "long-number", "nested-blocks", "nested-ifs", "nested-functions", "nested-arrays", "deep-parens", "many-functions", "long-comment-free-line", "many-empty-brackets"}
 
 func pr(e *Node) *Node { return ExprStmt(Call(Id("print"), e)) }
 
@@ -159,6 +159,25 @@ func Big(r *rand.Rand, kind string, n int) *Node {
 		}
 		p.Kids = append(p.Kids, pr(sum))
 		return p
+	case "many-empty-brackets":
+		// a flat program with thousands of empty calls, empty array / object literals, empty blocks and empty functions
+		p := Prog(&Node{K: KFuncDecl, Name: "e", Kids: nil}, Let("c", Num("0")))
+		for i := 0; i < n; i++ {
+			switch i % 5 {
+			case 0:
+				p.Kids = append(p.Kids, ExprStmt(Call(Id("e"))))
+			case 1:
+				p.Kids = append(p.Kids, ExprStmt(Asg("+=", Id("c"), Dot(&Node{K: KArr}, "length"))))
+			case 2:
+				p.Kids = append(p.Kids, &Node{K: KBlock})
+			case 3:
+				p.Kids = append(p.Kids, Let(fmt.Sprintf("o%d", i), &Node{K: KObj}))
+			default:
+				p.Kids = append(p.Kids, ExprStmt(Call(&Node{K: KFunc})))
+			}
+		}
+		p.Kids = append(p.Kids, pr(Id("c")))
+		return p
 	default: // "long-comment-free-line": many short statements, meant to be rendered on one line
 		p := Prog(Let("t", Num("0")))
 		for i := 0; i < n; i++ {
@@ -179,6 +198,8 @@ func BigSize(r *rand.Rand, kind string, thorough bool) int {
 			return 50 + r.IntN(450)
 		}
 		return 30 + r.IntN(200)
+	case kind == "many-empty-brackets" || kind == "many-functions":
+		return 1000 + r.IntN(5000)
 	case kind == "long-number":
 		return 20 + r.IntN(400)
 	case kind == "long-identifier":
